@@ -27,7 +27,7 @@ package oidc
 //@   derived  frame by L-onlysid-ext
 //@   ensures  err_nil: err != nil ==> t == nil
 //@   ensures  got: t != nil ==> old(View)[self.pay][sessionID].present && old(View)[self.pay][sessionID].hasTok && TokOf(t) == old(View)[self.pay][sessionID].tok
-//@   ensures  got_kept: t != nil ==> Touched(old(View)[self.pay][sessionID], View[self.pay][sessionID]) || (!View[self.pay][sessionID].present && Expirable(old(View)[self.pay][sessionID], Clk, StoreAbs(self), StoreIdle(self)))
+//@   ensures  got_kept: t != nil ==> Touched(old(View)[self.pay][sessionID], View[self.pay][sessionID])
 //@   ensures  refreshed: t != nil && View[self.pay][sessionID].present ==> Refreshed(View[self.pay][sessionID], old(Clk), Clk, StoreAbs(self), StoreIdle(self))
 //@   ensures  after: Touched(old(View)[self.pay][sessionID], View[self.pay][sessionID]) || !View[self.pay][sessionID].present
 
@@ -41,7 +41,7 @@ package oidc
 //@   derived  frame by L-onlysid-ext
 //@   ensures  err_nil: err != nil ==> a == nil
 //@   ensures  got: a != nil ==> old(View)[self.pay][sessionID].present && old(View)[self.pay][sessionID].hasAuth && AuthOf(a) == old(View)[self.pay][sessionID].auth
-//@   ensures  got_kept: a != nil ==> Touched(old(View)[self.pay][sessionID], View[self.pay][sessionID]) || (!View[self.pay][sessionID].present && Expirable(old(View)[self.pay][sessionID], Clk, StoreAbs(self), StoreIdle(self)))
+//@   ensures  got_kept: a != nil ==> Touched(old(View)[self.pay][sessionID], View[self.pay][sessionID])
 //@   ensures  refreshed: a != nil && View[self.pay][sessionID].present ==> Refreshed(View[self.pay][sessionID], old(Clk), Clk, StoreAbs(self), StoreIdle(self))
 //@   ensures  after: Touched(old(View)[self.pay][sessionID], View[self.pay][sessionID]) || !View[self.pay][sessionID].present
 
@@ -53,9 +53,9 @@ package oidc
 //@   ensures  frame: OnlySid(old(View), View, self.pay, sessionID)
 //@   ensures  frame_pw: OnlySidPW(old(View), View, self.pay, sessionID)
 //@   derived  frame by L-onlysid-ext
-//@   ensures  ok: err == nil ==> SetTokPost(old(View)[self.pay][sessionID], View[self.pay][sessionID], TokOf(tokenResponse)) || (Expirable(old(View)[self.pay][sessionID], Clk, StoreAbs(self), StoreIdle(self)) && (SetTokPost(AbsentSession(), View[self.pay][sessionID], TokOf(tokenResponse)) || Restarted(View[self.pay][sessionID], old(Clk))))
+//@   ensures  ok: err == nil ==> SetTokPost(old(View)[self.pay][sessionID], View[self.pay][sessionID], TokOf(tokenResponse)) || (Expirable(old(View)[self.pay][sessionID], Clk, StoreAbs(self), StoreIdle(self)) && SetTokPost(AbsentSession(), View[self.pay][sessionID], TokOf(tokenResponse)))
 //@   ensures  refreshed: err == nil && View[self.pay][sessionID].present ==> Refreshed(View[self.pay][sessionID], old(Clk), Clk, StoreAbs(self), StoreIdle(self))
-//@   ensures  fail: err != nil ==> View[self.pay][sessionID] == old(View)[self.pay][sessionID] || !View[self.pay][sessionID].present || SetTokPost(old(View)[self.pay][sessionID], View[self.pay][sessionID], TokOf(tokenResponse)) || (Expirable(old(View)[self.pay][sessionID], Clk, StoreAbs(self), StoreIdle(self)) && (SetTokPost(AbsentSession(), View[self.pay][sessionID], TokOf(tokenResponse)) || Restarted(View[self.pay][sessionID], old(Clk))))
+//@   ensures  fail: err != nil ==> View[self.pay][sessionID] == old(View)[self.pay][sessionID] || !View[self.pay][sessionID].present || SetTokPost(old(View)[self.pay][sessionID], View[self.pay][sessionID], TokOf(tokenResponse)) || (Expirable(old(View)[self.pay][sessionID], Clk, StoreAbs(self), StoreIdle(self)) && SetTokPost(AbsentSession(), View[self.pay][sessionID], TokOf(tokenResponse)))
 
 //@ interface SessionStore method SetAuthorizationState(self, ctx, sessionID, authorizationState) err
 //@   requires auth_nonnil: authorizationState != nil
@@ -65,9 +65,9 @@ package oidc
 //@   ensures  frame: OnlySid(old(View), View, self.pay, sessionID)
 //@   ensures  frame_pw: OnlySidPW(old(View), View, self.pay, sessionID)
 //@   derived  frame by L-onlysid-ext
-//@   ensures  ok: err == nil ==> SetAuthPost(old(View)[self.pay][sessionID], View[self.pay][sessionID], AuthOf(authorizationState)) || (Expirable(old(View)[self.pay][sessionID], Clk, StoreAbs(self), StoreIdle(self)) && (SetAuthPost(AbsentSession(), View[self.pay][sessionID], AuthOf(authorizationState)) || Restarted(View[self.pay][sessionID], old(Clk))))
+//@   ensures  ok: err == nil ==> SetAuthPost(old(View)[self.pay][sessionID], View[self.pay][sessionID], AuthOf(authorizationState)) || (Expirable(old(View)[self.pay][sessionID], Clk, StoreAbs(self), StoreIdle(self)) && SetAuthPost(AbsentSession(), View[self.pay][sessionID], AuthOf(authorizationState)))
 //@   ensures  refreshed: err == nil && View[self.pay][sessionID].present ==> Refreshed(View[self.pay][sessionID], old(Clk), Clk, StoreAbs(self), StoreIdle(self))
-//@   ensures  fail: err != nil ==> View[self.pay][sessionID] == old(View)[self.pay][sessionID] || !View[self.pay][sessionID].present || SetAuthPost(old(View)[self.pay][sessionID], View[self.pay][sessionID], AuthOf(authorizationState)) || (Expirable(old(View)[self.pay][sessionID], Clk, StoreAbs(self), StoreIdle(self)) && (SetAuthPost(AbsentSession(), View[self.pay][sessionID], AuthOf(authorizationState)) || Restarted(View[self.pay][sessionID], old(Clk))))
+//@   ensures  fail: err != nil ==> View[self.pay][sessionID] == old(View)[self.pay][sessionID] || !View[self.pay][sessionID].present || SetAuthPost(old(View)[self.pay][sessionID], View[self.pay][sessionID], AuthOf(authorizationState)) || (Expirable(old(View)[self.pay][sessionID], Clk, StoreAbs(self), StoreIdle(self)) && SetAuthPost(AbsentSession(), View[self.pay][sessionID], AuthOf(authorizationState)))
 
 //@ interface SessionStore method ClearAuthorizationState(self, ctx, sessionID) err
 //@   modifies ghost View, ghost Clk
@@ -121,7 +121,7 @@ package oidc
 //@ func (*Clock).Now
 //@   abstractbody
 //@   modifies ghost Clk
-//@   ensures  mono: result >= old(Clk) && Clk == result && result > TZERO + SECOND
+//@   ensures  mono: result >= old(Clk) && Clk == result && result > TZERO + SECOND && result <= ROpEnd
 
 //@ func ParseToken
 //@   ensures  parses: (err == nil) == JwtParses(token)
@@ -153,10 +153,10 @@ package oidc
 // Redis command fails (nofault): the store's multi-command writes are not atomic under faults.
 // ---------------------------------------------------------------------------------------------
 
-
 //@ impl (*redisStore) SessionStore (r, sid)
 //@   requires wf: r != nil && r.log != nil && r.clock != nil && r.client != nil && r.absoluteSessionTimeout >= 0 && r.idleSessionTimeout >= 0
 //@   requires nofault: !RFaulty
+//@   requires optime: RDB[r.client.pay][sessionID].exp == TZERO || RDB[r.client.pay][sessionID].exp <= Clk || RDB[r.client.pay][sessionID].exp > ROpEnd
 //@   invariant dbwf: forall x string :: RKeyWF(RDB[r.client.pay][x], r.absoluteSessionTimeout, r.idleSessionTimeout)
 //@   view View: RedisView(r, sid)
 //@   private ghost RDB, ghost Clk
